@@ -2,7 +2,7 @@
    satisfying [cfg_ok] (at least two chunks, least chunk size 1, recursion and
    id lookup starting on the same axis). *)
 From Coupe Require Import Lib.Prelude Lib.SFloat Model.GridRcb
-  Proofs.GridRcbMedian Proofs.GridRcbTree Proofs.GridRcbChecker.
+  Proofs.GridRcbMedian Proofs.GridRcbTree Proofs.GridRcbChecker Proofs.GridRcbComplete.
 Open Scope Z_scope.
 
 Lemma median_terminates c : cfg_ok c -> forall (T fuel : nat) fw ws tot,
@@ -11,7 +11,7 @@ Lemma median_terminates c : cfg_ok c -> forall (T fuel : nat) fw ws tot,
 Proof.
   intros (Hcc & Hcs & _) T fuel fw ws tot Hne Hok Hf.
   destruct (thresholds fw (tol_bits c) tot) as [mn mx] eqn:E.
-  destruct (thr_ok_b_spec _ _ _ _ _ E Hok) as (H0 & H1 & _).
+  destruct (thr_ok_b_spec _ _ _ _ _ E Hok) as ((H0 & H1 & _) & _).
   exact (weighted_median_total c fuel T fw ws tot mn mx E H0 H1 Hne Hcc Hcs Hf).
 Qed.
 
@@ -37,11 +37,11 @@ Lemma median_balanced c : forall fuel T fw ws tot p w,
   ws <> [] -> tot = sumZ ws -> 0 <= tot -> thr_ok_b fw (tol_bits c) tot = true ->
   weighted_median c fuel T fw ws tot = Ok (p, w) ->
   w = pre ws p /\ exists s, nth_opt ws p = Some s /\
-  (100 * Z.abs (2 * w - tot) <= tot + 200 \/ 2 * w < tot <= 2 * (w + s)).
+  (band_of fw tot w \/ 2 * w < tot <= 2 * (w + s)).
 Proof.
   intros fuel T fw ws tot p w Hne Htot H0 Hok Hm.
   destruct (thresholds fw (tol_bits c) tot) as [mn mx] eqn:E.
-  destruct (thr_ok_b_spec _ _ _ _ _ E Hok) as (Ha & Hb & _).
+  destruct (thr_ok_b_spec _ _ _ _ _ E Hok) as ((Ha & Hb & _) & _).
   pose proof (weighted_median_spec c fuel T fw ws tot mn mx p w E Ha Hb Hne Hm) as Hpost.
   split; [exact (proj1 (proj2 Hpost))|].
   exact (median_post_balanced fw (tol_bits c) ws tot mn mx p w E Hok Htot H0 Hpost).
@@ -58,11 +58,32 @@ Lemma gridrcb_boxes c : cfg_ok c -> forall fuel T fw ds ws k,
   (forall t, 0 <= t <= sumZ ws -> thr_ok_b fw (tol_bits c) t = true) ->
   Forall (fun s => (s < 2 ^ fuel)%nat) ds ->
   exists ids, grid_rcb c fuel T fw ds ws k (glen ds) = Ok ids
-              /\ C10_spec bal_strong (start_of c ds) ds ws k ids
-              /\ C10_spec bal_prop (start_of c ds) ds ws k ids.
+              /\ C10_spec (bal_strong fw) (start_of c ds) ds ws k ids
+              /\ C10_spec (bal_prop fw) (start_of c ds) ds ws k ids.
 Proof.
   intros Hc fuel T fw ds ws k Hwf Hs Hnn Hthr Hf.
   destruct (grid_rcb_ok c fuel T fw ds ws k Hc Hwf Hs Hnn Hthr Hf) as (ids & Hr & Hspec).
   exists ids. split; [exact Hr|]. split; [exact Hspec|].
-  exact (C10_spec_mono _ _ _ _ _ _ _ bal_strong_prop Hspec).
+  exact (C10_spec_mono _ _ _ _ _ _ _ (bal_strong_prop fw) Hspec).
 Qed.
+
+(* the checker with the clause of a weight type decides the statement *)
+Lemma checker_sound fw s ds ws k ids :
+  check_C10 (bal_prop_b fw) s ds ws k ids = true -> C10_spec (bal_prop fw) s ds ws k ids.
+Proof. apply check_C10_sound. intros t w r l. apply bal_prop_b_iff. Qed.
+
+Lemma bal_prop_b_zero fw : bal_prop_b fw 0 0 0 0 = true.
+Proof. destruct fw; reflexivity. Qed.
+
+Lemma checker_complete fw s ds ws k ids :
+  (length ds = 2 \/ length ds = 3)%nat -> Forall (fun x => (1 <= x)%nat) ds -> length ws = glen ds ->
+  (s < length ds)%nat ->
+  C10_spec (bal_prop fw) s ds ws k ids -> check_C10 (bal_prop_b fw) s ds ws k ids = true.
+Proof.
+  apply check_C10_complete; [|apply bal_prop_b_zero]. intros t w r l. apply bal_prop_b_iff.
+Qed.
+
+(* the looser relative band used for the stream of arbitrary f64 fractions *)
+Lemma checker_rel_sound e s ds ws k ids :
+  check_C10 (bal_rel_b e) s ds ws k ids = true -> C10_spec (bal_rel e) s ds ws k ids.
+Proof. apply check_C10_sound. intros t w r l. apply bal_rel_b_iff. Qed.
